@@ -577,6 +577,83 @@ func verifQM(args []string) string {
 	return wire.PrintList(out)
 }
 
+// sweephold <T ms> <hold ms>: the REAL sweeper of NewClientMap while another goroutine is inside a critical section of
+// the map at every instant the sweeper comes (a goroutine descheduled while it holds the lock): m.lock is held from
+// <hold> ms before to <hold> ms after every multiple of T/2 since the map was made, for 3 T.  One client is seen once, at
+// 0.3 T.  A sweeper that WAITS for the lock runs right after each window: the queue must be closed by the window that
+// follows the first sweep instant at or after 1.3 T.  Answer: closed:<us after last seen> | open:<us> (still open 2.5 T
+// after it was last seen) | early:<us> | !timing (this process could not keep the windows).
+func verifSweepHold(args []string) string {
+	tms, e1 := strconv.Atoi(args[0])
+	hms, e2 := strconv.Atoi(args[1])
+	if e1 != nil || e2 != nil || tms < 20 || hms < 1 || 4*hms >= tms {
+		return "!badcase"
+	}
+	T := time.Duration(tms) * time.Millisecond
+	H := time.Duration(hms) * time.Millisecond
+	t0 := time.Now()
+	m := NewClientMap(T)
+	stop := make(chan struct{})
+	late := make(chan bool, 1)
+	go func() {
+		missed := false
+		for k := 1; ; k++ {
+			start := t0.Add(time.Duration(k)*T/2 - H)
+			if d := time.Until(start); d > 0 {
+				select {
+				case <-stop:
+					late <- missed
+					return
+				case <-time.After(d):
+				}
+			} else if -d > H/2 {
+				missed = true // the window would start after (or too close to) the sweep instant
+			}
+			m.lock.Lock()
+			time.Sleep(time.Until(t0.Add(time.Duration(k)*T/2 + H)))
+			m.lock.Unlock()
+			select {
+			case <-stop:
+				late <- missed
+				return
+			default:
+			}
+		}
+	}()
+	time.Sleep(time.Until(t0.Add(3 * T / 10)))
+	addr := verifAddr(7)
+	q := m.SendQueue(addr)
+	seen := time.Now()
+	res := ""
+	for {
+		time.Sleep(T / 50)
+		now := time.Now()
+		closed := false
+		select {
+		case _, ok := <-q:
+			closed = !ok
+		default:
+		}
+		if closed {
+			if now.Sub(seen) < T-T/50 {
+				res = "early:" + strconv.FormatInt(now.Sub(seen).Microseconds(), 10)
+			} else {
+				res = "closed:" + strconv.FormatInt(now.Sub(seen).Microseconds(), 10)
+			}
+			break
+		}
+		if now.Sub(seen) > 5*T/2 {
+			res = "open:" + strconv.FormatInt(now.Sub(seen).Microseconds(), 10)
+			break
+		}
+	}
+	close(stop)
+	if <-late && strings.HasPrefix(res, "open") {
+		return "!timing"
+	}
+	return res
+}
+
 func TestVerifDriver(t *testing.T) {
 	if os.Getenv("VERIF_DRIVER") != "1" {
 		t.Skip("driver mode only")
@@ -590,6 +667,9 @@ func TestVerifDriver(t *testing.T) {
 		}
 		if len(args) >= 4 && args[0] == "qm" {
 			return verifQM(args[1:])
+		}
+		if len(args) == 3 && args[0] == "sweephold" {
+			return verifSweepHold(args[1:])
 		}
 		return "!badcase"
 	})
